@@ -54,11 +54,13 @@ def variants(src, has_non_latin):
 def variants_cookie(src):
     """variants that add a coding line (shifts every line by one)"""
     out = [("utf8-cookie", ("# -*- coding: utf-8 -*-\n" + src).encode("utf-8"))]
-    try:
-        out.append(("latin-1", ("# -*- coding: latin-1 -*-\n" + src).encode("latin-1")))
-        out.append(("cp1252", ("# -*- coding: cp1252 -*-\n" + src).encode("cp1252")))
-    except UnicodeEncodeError:
-        pass
+    # every declared legacy encoding that can spell the program (directional marks exist in the Hebrew and Arabic code pages,
+    # all of them in gb18030)
+    for codec in ("latin-1", "cp1252", "cp1255", "cp1256", "iso-8859-8", "gb18030", "utf-7"):
+        try:
+            out.append((codec, ("# -*- coding: %s -*-\n" % codec + src).encode(codec)))
+        except (UnicodeEncodeError, LookupError):
+            pass
     return out
 
 
